@@ -37,7 +37,10 @@ Definition set_pipe (id : Z) (p : pipe) (w : world) : world :=
 
 (* ---- children ---- *)
 Definition wstatus_exit (code : Z) : N := Z.to_N ((code mod 256) * 256).
-Definition wstatus_sig (sig : Z) : N := Z.to_N sig.
+(* signals whose default action dumps core: the wait status carries the core flag (0x80), as with
+   a non-zero RLIMIT_CORE; WTERMSIG masks it out, W*-macro-free decoders must too *)
+Definition core_signals : list Z := [3; 4; 5; 6; 7; 8; 11; 24; 25; 31].
+Definition wstatus_sig (sig : Z) : N := Z.to_N (sig + (if existsb (Z.eqb sig) core_signals then 128 else 0)).
 
 Definition add_seen (o : obs) (p : proc) : proc := pr_with_seen (o :: pr_seen p) p.
 
